@@ -213,3 +213,31 @@ func minIntV(a, b int) int {
 	}
 	return b
 }
+
+// VerifRawBSI reads the stored integer of a column straight from the BSI rows
+// of the field's fragment, with a generous fixed depth instead of the field's
+// recorded bit depth (base value, i.e. without adding bsig.Base back).
+func VerifRawBSI(f *Field, col uint64, depth uint) (value int64, exists bool) {
+	v := f.view(viewBSIGroupPrefix + f.name)
+	if v == nil {
+		return 0, false
+	}
+	frag := v.Fragment(col / ShardWidth)
+	if frag == nil {
+		return 0, false
+	}
+	frag.mu.Lock()
+	defer frag.mu.Unlock()
+	if b, _ := frag.bit(bsiExistsBit, col); !b {
+		return 0, false
+	}
+	for i := uint(0); i < depth; i++ {
+		if b, _ := frag.bit(uint64(bsiOffsetBit+i), col); b {
+			value |= 1 << i
+		}
+	}
+	if b, _ := frag.bit(bsiSignBit, col); b {
+		value = -value
+	}
+	return value, true
+}
